@@ -190,6 +190,64 @@ def _make_model(values):
     return model, elems
 
 
+ARRAYS2 = {"v": [2.0, -5.0, 3.0], "m": [[1.0, 4.0], [6.0, 0.5]]}
+
+
+def _dsl_inplace(tree, values1, values2, t=2.0):
+    """build with values1, evaluate, then change the operand values *in place* (element equations and array
+    members) to values2 / ARRAYS2 and evaluate again.  returns ('ok', v1, v2) or ('rejected', reason)"""
+    try:
+        model, elems = _make_model(values1)
+        eq = E.lower_dsl(tree, elems, model)
+        x = model.converter("x")
+        x.equation = eq
+        v1 = x(t)
+        for n in NAMES:
+            elems[n].equation = values2[n]
+        for i, val in enumerate(ARRAYS2["v"]):
+            elems["v"][i] = val
+        for i, row in enumerate(ARRAYS2["m"]):
+            for j, val in enumerate(row):
+                elems["m"][i][j] = val
+        v2 = x(t)
+        return "ok", v1, v2
+    except Exception as e:  # noqa
+        return "rejected", type(e).__name__, None
+
+
+def _dsl_shared(shared, trees, values, t=2.0):
+    """one DSL object for the shared sub-expression, used by several equations"""
+    try:
+        model, elems = _make_model(values)
+        k = E.lower_dsl(shared, elems, model)
+        elems2 = dict(elems)
+        elems2["__shared"] = k
+        convs = []
+        for i, tr in enumerate(trees):
+            c = model.converter("x%d" % i)
+            c.equation = E.lower_dsl(tr, elems2, model)
+            convs.append(c)
+        return "ok", [c(t) for c in convs]
+    except Exception as e:  # noqa
+        return "rejected", type(e).__name__
+
+
+def _subst(tree, shared):
+    if tree[0] == "ref" and tree[1] == "__shared":
+        return shared
+    if tree[0] == "call":
+        return ["call", tree[1], [_subst(a, shared) for a in tree[2]]]
+    if tree[0] in ("bin", "cmp"):
+        return [tree[0], tree[1], _subst(tree[2], shared), _subst(tree[3], shared)]
+    if tree[0] in ("neg", "not"):
+        return [tree[0], _subst(tree[1], shared)]
+    if tree[0] in ("and", "or"):
+        return [tree[0], _subst(tree[1], shared), _subst(tree[2], shared)]
+    if tree[0] == "if":
+        return ["if", _subst(tree[1], shared), _subst(tree[2], shared), _subst(tree[3], shared)]
+    return tree
+
+
 def _dsl_value(tree, values, t=2.0):
     """returns ('ok', value) or ('rejected', reason)"""
     try:
@@ -224,7 +282,36 @@ def _signature(tree, values):
     return "misgroup:whole-tree-only:%s" % E.op_name(tree)
 
 
+def check_shared(case):
+    """{"shared": subtree, "trees": [t1, t2, ...]}: the same DSL object is an operand of several equations"""
+    info = {"compound": True, "conditioned": 0, "rejected": 0, "compared": 0}
+    vs = []
+    for values in (case.get("values") or ASSIGNMENTS):
+        wants = []
+        try:
+            for tr in case["trees"]:
+                wants.append(E.RefEval(values, time=2.0, dt=1.0, start=0.0, stop=4.0, arrays=ARRAYS).ev(_subst(tr, case["shared"])))
+        except E.Fragile:
+            continue
+        info["conditioned"] += 1
+        res = _dsl_shared(case["shared"], case["trees"], values)
+        if res[0] == "rejected":
+            info["rejected"] += 1
+            info["reject_reason"] = res[1]
+            continue
+        info["compared"] += 1
+        for i, (g, w) in enumerate(zip(res[1], wants)):
+            if not E.close(g, w):
+                vs.append(Violation("shared-operand:%s" % E.op_name(case["trees"][i]),
+                                    "shared sub-expression k = %s used in %s with %s: equation #%d evaluates to %r, python value %r (all: %r vs %r)"
+                                    % (E.show(case["shared"]), [E.show(t) for t in case["trees"]], values, i, g, w, res[1], wants)))
+                return info, vs
+    return info, vs
+
+
 def check_case(case):
+    if "shared" in case:
+        return check_shared(case)
     tree = case["tree"]
     assigns = case.get("values") or ASSIGNMENTS
     info = {"compound": any(E.children(c) or c[0] == "agg" for c in E.children(tree)),
@@ -246,12 +333,34 @@ def check_case(case):
             sig = _signature(tree, values)
             vs.append(Violation(sig, "expr %s with %s: DSL value %r, python value %r" % (E.show(tree), values, val, ref)))
             break
+    # the same equation must follow its operands when their values are changed in place
+    if not vs and info["compared"] and len(assigns) >= 2 and E.refs(tree) | ({"agg"} if "agg" in repr(tree) else set()):
+        v1s, v2s = assigns[0], assigns[1]
+        try:
+            w2 = E.RefEval(v2s, time=2.0, dt=1.0, start=0.0, stop=4.0, arrays=ARRAYS2).ev(tree)
+            E.RefEval(v1s, time=2.0, dt=1.0, start=0.0, stop=4.0, arrays=ARRAYS).ev(tree)
+        except E.Fragile:
+            return info, vs
+        res = _dsl_inplace(tree, v1s, v2s)
+        if res[0] == "ok" and not E.close(res[2], w2):
+            vs.append(Violation("stale-operand:%s" % E.op_name(tree),
+                                "expr %s: after changing the operand values in place to %s / arrays %s it evaluates to %r, python value %r"
+                                % (E.show(tree), v2s, ARRAYS2, res[2], w2)))
     return info, vs
 
 
 def _body(ctx):
     def body(case):
         info, vs = check_case(case)
+        if "shared" in case:
+            if info["conditioned"] == 0:
+                ctx.discard("ill-conditioned")
+                return
+            ctx.case({"shared": E.show(case["shared"]), "equations": [E.show(t) for t in case["trees"]],
+                      "outcome": "violation" if vs else ("rejected" if not info["compared"] else "equal")},
+                     nontrivial=info["compared"] > 0, labels=["shared-operand"], key=case)
+            ctx.report(vs)
+            return
         labels = ["outer:" + E.op_name(case["tree"])]
         if info["conditioned"] == 0:
             ctx.discard("ill-conditioned")
@@ -319,10 +428,30 @@ def case_strategy(max_depth):
     return st.fixed_dictionaries({"tree": tree_strategy(max_depth), "values": st.lists(vals, min_size=2, max_size=2)})
 
 
+def shared_strategy():
+    leaf = st.one_of(st.sampled_from(NAMES).map(lambda n: ["ref", n]), st.sampled_from([2, 3.0, 0.5]).map(lambda v: ["num", v]))
+    k = st.just(["ref", "__shared"])
+    shared = st.one_of(
+        st.tuples(st.sampled_from(["*", "+", "-", "/"]), leaf, leaf).map(lambda x: ["bin", x[0], x[1], x[2]]),
+        st.sampled_from(NAMES).map(lambda n: ["neg", ["ref", n]]),
+        st.tuples(st.sampled_from([2, 3.0, 0.5, 4]), st.sampled_from(NAMES)).map(lambda x: ["bin", "*", ["num", x[0]], ["ref", x[1]]]),
+        st.tuples(st.sampled_from(["min", "max"]), leaf, leaf).map(lambda x: ["call", x[0], [x[1], x[2]]]))
+    use = st.one_of(
+        k.map(lambda x: ["neg", x]), k,
+        st.tuples(st.sampled_from(["+", "-", "*", "/"]), k, leaf).map(lambda x: ["bin", x[0], x[1], x[2]]),
+        st.tuples(st.sampled_from(["+", "-", "*"]), leaf, k).map(lambda x: ["bin", x[0], x[1], x[2]]),
+        st.tuples(st.sampled_from(["-", "+"]), k, k.map(lambda x: ["neg", x])).map(lambda x: ["bin", x[0], x[1], x[2]]),
+        st.tuples(st.sampled_from(["min", "max"]), k.map(lambda x: ["neg", x]), k).map(lambda x: ["call", x[0], [x[1], x[2]]]),
+        k.map(lambda x: ["call", "abs", [x]]))
+    vals = st.fixed_dictionaries({n: st.sampled_from(NICE) for n in NAMES})
+    return st.fixed_dictionaries({"shared": shared, "trees": st.lists(use, min_size=2, max_size=3), "values": st.lists(vals, min_size=2, max_size=2)})
+
+
 def plan(tier):
     n_rand = 250 if tier == "quick" else 4000
     specs = [{"kind": "table", "part": i, "of": 8} for i in range(8)]
     specs += [{"kind": "random", "n": n_rand, "depth": 3 + (i % 4)} for i in range(8)]
+    specs += [{"kind": "shared", "n": n_rand} for i in range(2)]
     return specs
 
 
@@ -334,5 +463,7 @@ def run_shard(spec, ctx):
         ctx.extra["table_size"] = len(mine)
         ctx.enum(mine, body)
         ctx.exhaustive = True
+    elif spec["kind"] == "shared":
+        ctx.hyp(shared_strategy(), body, spec["n"])
     else:
         ctx.hyp(case_strategy(spec["depth"]), body, spec["n"])
